@@ -19,11 +19,12 @@ package fingerprint
 //@   ensures name == i.HeaderName
 
 //@ func (*FingerprintHeaderInjector).GetHeaderValue :: i, req -> fp, err
-//@   props C06,C01,C05
+//@   props C06,C01,C05,C03,C07
 //@   requires i != nil && req != nil
 //@   assigns nothing
 //@   ensures [C06:no-metadata-no-value] !hasMeta(req.reqCtx) ==> err != nil && fp == ""
 //@   ensures [C06:value-from-own-connection-record-only] hasMeta(req.reqCtx) ==> fp == fcall("FingerprintFunc", i.FingerprintFunc, ctxMeta(req.reqCtx))
+//@   ensures [C03,C07:computed-from-the-record-as-it-stands-at-this-request-never-remembered] hasMeta(req.reqCtx) ==> fp == fcall("FingerprintFunc", i.FingerprintFunc, ctxMeta(req.reqCtx))
 
 //@ func NewFingerprintHeaderInjector :: headerName, fingerprintFunc -> i
 //@   props C01,C06
